@@ -80,6 +80,21 @@ pub fn pre_spawn(role: &str) -> SpawnToken {
   }))
 }
 
+impl SpawnToken {
+  /// The simulator's id of the thread about to be spawned (None without a simulator).
+  pub fn id(&self) -> Option<u64> {
+    self.0.as_ref().map(|(_, t)| *t)
+  }
+}
+
+/// The caller is about to join the threads spawned with these tokens.
+pub fn join_point(tokens: &[Option<u64>]) {
+  if let Some(h) = current() {
+    let ids: Vec<u64> = tokens.iter().flatten().copied().collect();
+    h.block_on_join(&ids);
+  }
+}
+
 /// Declare this guard *first* in a thread body: locals declared later are dropped
 /// earlier, so channel ends and other resources are gone when the exit is reported.
 pub struct ThreadGuard(Option<(Arc<dyn SimHooks>, u64)>);
